@@ -8,7 +8,10 @@ package types
 //@ spec func isBin(e dsl.Expression) bool = typeof(e) == *dsl.BinaryExpression && e.(*dsl.BinaryExpression) != nil
 //@ spec func opOf(e dsl.Expression) dsl.BinaryOperator = e.(*dsl.BinaryExpression).Operator
 // Python's ** is right-associative: there the LEFT operand of equal precedence needs the parentheses.
-//@ spec func needsLeft(t *dsl.BinaryExpression) int = ite(isBin(t.Left) && (opOf(t.Left).Precedence() < t.Operator.Precedence() || (t.Operator == dsl.BinaryOpPow && opOf(t.Left).Precedence() == t.Operator.Precedence())), 1, 0)
+// A negated operand on the left of a power: yardl reads `-x ** 2` as (-x) ** 2 (the minus belongs to the operand)
+// and C++ prints std::pow(-(x), 2); Python's ** binds tighter than unary minus, so the operand keeps its parentheses.
+//@ spec func isNeg(e dsl.Expression) bool = typeof(e) == *dsl.UnaryExpression
+//@ spec func needsLeft(t *dsl.BinaryExpression) int = ite((isBin(t.Left) && (opOf(t.Left).Precedence() < t.Operator.Precedence() || (t.Operator == dsl.BinaryOpPow && opOf(t.Left).Precedence() == t.Operator.Precedence()))) || (t.Operator == dsl.BinaryOpPow && isNeg(t.Left)), 1, 0)
 //@ spec func needsRight(t *dsl.BinaryExpression) int = ite(isBin(t.Right) && opOf(t.Right).Precedence() <= t.Operator.Precedence(), 1, 0)
 //@ func writeComputedFieldExpression@emits:"**"
 //@   property C19
@@ -17,6 +20,14 @@ package types
 //@   ensures additive_and_multiplicative_tokens: (t.Operator == dsl.BinaryOpAdd ==> emittedHere("+") == 1) && (t.Operator == dsl.BinaryOpSub ==> emittedHere("-") == 1) && (t.Operator == dsl.BinaryOpMul ==> emittedHere("*") == 1) && (t.Operator == dsl.BinaryOpPow ==> emittedHere("**") == 1)
 //@   ensures integer_division_floors: t.Operator == dsl.BinaryOpDiv && dsl.IsIntegralType(t.ResolvedType) ==> emittedHere("//") == 1 && emittedHere("/") == 0
 //@   ensures floating_division_is_true_division: t.Operator == dsl.BinaryOpDiv && !dsl.IsIntegralType(t.ResolvedType) ==> emittedHere("/") == 1 && emittedHere("//") == 0
+
+// Every conversion node - explicit `as` or the implicit promotions the type checker inserts - wraps its operand in
+// the conversion callable of the target type (`int(...)`, `float(...)`, `complex(...)`...). Elements of numpy arrays
+// are fixed-width scalars, not Python ints: `int8 * int8` without the inserted `int(...)` wraps around, while C++
+// and MATLAB compute in the promoted type.
+//@ func writeComputedFieldExpression@emits:"%s = "
+//@   property C19
+//@   ensures every_conversion_wraps_its_operand: typeof(node) == *dsl.TypeConversionExpression ==> called("python/types.(tailWrapper).Append")
 
 // Output and diagnostics may not depend on the iteration order of a Go map (C12): decided per `range` over a map.
 //@ map-order C12 package
